@@ -88,6 +88,21 @@ pub fn reopen_backup(path: &Path) -> Result<Vec<u8>, String> {
     Ok(buf)
 }
 
+/// open a bare backend on an existing database file - no query server, so none of the start-up
+/// migrations (which re-index in development builds) - and report its own consistency checks and
+/// a few name lookups
+pub fn backend_level_check(path: &Path, names: &[&str]) -> Result<String, String> {
+    let (be, _schema) = fresh_backend(path)?;
+    let mut r = be.read().map_err(|e| format!("be read: {e:?}"))?;
+    let mut bad: Vec<String> = r.verify().into_iter().filter_map(|x| x.err()).map(|e| format!("{e:?}")).collect();
+    bad.extend(r.verify_indexes().into_iter().filter_map(|x| x.err()).map(|e| format!("{e:?}")));
+    let mut out = format!("backend_verify:{}", if bad.is_empty() { "clean".to_string() } else { format!("{bad:?}") });
+    for n in names {
+        out.push_str(&format!("\nbackend_name_lookup:{n}={:?}", r.name2uuid(n).ok().flatten()));
+    }
+    Ok(out)
+}
+
 /// restore into a fresh database file the way the server's restore command does (restore,
 /// commit, reindex); returns the uncompressed backup of the restored database. The backend is
 /// closed afterwards: the restored server is started on the file like any server start.
